@@ -32,6 +32,12 @@ def faithful():
         if p._initialized and p.symbol and P._by_symbol.get(p.symbol) is not p: bad.append("prefix %r reports symbol %r bound elsewhere" % (p, p.symbol))
     for n, d in D._by_name.items():
         if d.name != n: bad.append("dimension name %r bound to a dimension named %r" % (n, d.name))
+    for s, p in P._by_symbol.items():
+        try:
+            r = P.resolve_symbol(s)
+        except Exception as e:
+            r = type(e).__name__
+        if r is not p: bad.append("prefix symbol %r resolves to %s, not to the prefix registered under it" % (s, str(r)[:60]))
     # looking a registered name or symbol up returns the object registered under it
     for table, what in ((U._by_symbol, "symbol"), (U._by_name, "name")):
         for k, u in table.items():
@@ -97,7 +103,7 @@ def run(tier, seed):
     tag = "c19s%d" % seed
     for i in range(n):
         k = rng.choice(["prefix-symbol-then-conflict", "prefix-name-then-conflict", "anon-then-named-prefix", "define-dup-name", "define-dup-symbol", "define-space", "alias-conflict-symbol",
-                        "alias-space", "alias-dup-name", "derive-dup", "prefix-dup-symbol", "named-ok", "derive-ok", "lookup-then-define", "lookup-name-then-symbol", "rederive-new-symbol", "rederive-taken-symbol", "scale-other-dimension", "scale-dup-symbol", "lookalike-symbol", "lookalike-name"])
+                        "alias-space", "alias-dup-name", "derive-dup", "prefix-dup-symbol", "named-ok", "derive-ok", "lookup-then-define", "lookup-name-then-symbol", "rederive-new-symbol", "rederive-taken-symbol", "scale-other-dimension", "scale-dup-symbol", "lookalike-symbol", "lookalike-name", "prefix-short-symbol"])
         u = "%s_%d" % (tag, i)
         code = {
             "anon-then-named-prefix": "import measured\nb = {b}\nanon = measured.Prefix(b, {e})\np = measured.Prefix(b, {e}, name='{u}n', symbol='{u}s')\nok = p is anon and measured.Prefix._by_name.get('{u}n') is p and measured.Prefix._by_symbol.get('{u}s') is p and p.name == '{u}n' and p.symbol == '{u}s'\n",
@@ -124,6 +130,8 @@ def run(tier, seed):
             # refused or registered as its own key: the existing binding is never taken over
             "lookalike-symbol": "import measured, unicodedata\nbefore = dict(measured.Unit._by_symbol)\ntry:\n    measured.Unit.define(measured.Length, '{u}', '{ls}')\nexcept ValueError:\n    pass\nok = all(measured.Unit._by_symbol.get(k) is v for k, v in before.items()) and not faithful()\n",
             "lookalike-name": "import measured\nbefore = dict(measured.Unit._by_name)\ntry:\n    measured.Unit.define(measured.Length, 'A\\u030angstro\\u0308m', '{u}')\nexcept ValueError:\n    pass\nok = all(measured.Unit._by_name.get(k) is v for k, v in before.items()) and not faithful()\n",
+            # a new prefix may take any free symbol, however short or similar to a shipped one; lookups by that symbol return it
+            "prefix-short-symbol": "import measured\nfree = [s for s in ['u', '\\u00b5', 'mc', 'K', 'D', 'H', 'mu', 'U', 'x', 'dk', 'hh', 'Mi2', '\\u03bc\\u03bc', 'ki', 'da2'] if s not in measured.Prefix._by_symbol]\nok = True\nif free:\n    s = free[0]\n    p = measured.Prefix({b}, {e}, symbol=s)\n    ok = measured.Prefix._by_symbol.get(s) is p and p.symbol == s and measured.Prefix.resolve_symbol(s) is p and not faithful()\n",
             "named-ok": "import measured\nanon = ns['Meter']**{e2} / ns['Second']**{e3}\nmeasured.Unit.derive(anon, '{u}', '{u}')\nok = measured.Unit._by_name['{u}'] is anon and measured.Unit._by_symbol['{u}'] is anon and '{u}' in anon.names and not faithful()\n",
             "derive-ok": "import measured\nd = measured.Length**{e2} / measured.Time**{e3}\nwas = d.name\ntry:\n    measured.Dimension.derive(d, '{u}')\n    ok = measured.Dimension._by_name['{u}'] is d and d.name == '{u}'\nexcept ValueError:\n    ok = was is not None and was != '{u}'\nok = ok and not faithful()\n",
         }[k].format(u=u, ls=rng.choice(["\\u2126", "A\\u030a", "\\u212b", "\\u00b5m"]), b=rng.choice([3, 5, 7, 11]), e=rng.choice([-9, -7, 5, 8, 13]) + i * 100, e2=17 + i, e3=23 + i)
@@ -144,7 +152,7 @@ def run(tier, seed):
             samples.append(code.splitlines()[1:4])
     return {"evaluations": evals, "distinct": len(distinct) + 2, "failures": failures[:8], "samples": samples,
             "rule": "registry faithfulness of all shipped declarations (names/symbols <-> objects, every named Prefix(...) declaration in the source), "
-                    "plus random scenarios of 21 kinds (anonymous-then-named, failing define/alias/derive/prefix calls in each argument position with "
+                    "plus random scenarios of 22 kinds (anonymous-then-named, failing define/alias/derive/prefix calls in each argument position with "
                     "registry snapshots before and after); distinct = scenario kinds", "bound": "%d scenarios" % n}
 
 
